@@ -99,6 +99,9 @@ func (h *History) emit(t *rapid.T, op Op) {
 	if h.cfg.ValType == "empty" {
 		op.V = 0
 	}
+	if h.cfg.ValType == "u8" {
+		op.V &= 0xff
+	}
 	if h.cfg.ValType != "" {
 		churn = make([]byte, 64+len(h.trace.Ops)%512) // allocation churn so that freed memory is reused quickly
 	}
